@@ -268,9 +268,11 @@ Definition restr_true_legacy (R : request) (P : presentation) (cx : ctx) : bool 
                     referent served by a credential it is evaluated like any other ($and [] is true, $or [] false) *)
                  if is_self_attested P r ai then true else
                  (* the credential the presentation maps the referent to *)
-                 let bound := match assoc r (rp_unrev rp) with Some i => Some i | None =>
-                              match assoc r (rp_groups rp) with Some (i, _) => Some i | None =>
-                              match assoc r (rp_revealed rp) with Some (i, _, _) => Some i | None => None end end end in
+                 (* the credential that REVEALS under the referent when one does (a referent may be listed as
+                    unrevealed under another credential as well: that entry shows nothing) *)
+                 let bound := match assoc r (rp_groups rp) with Some (i, _) => Some i | None =>
+                              match assoc r (rp_revealed rp) with Some (i, _, _) => Some i | None =>
+                              assoc r (rp_unrev rp) end end in
                  match bound with
                  | Some i => match nthZ (p_proofs P) i with
                              | Some sp => match filter_of cx sp with
